@@ -785,7 +785,7 @@ Qed.
 Definition answering_evs : list ev :=
   merge (ticks 1000000250 170)
         [Recv 1000079250 (MHeartbeat (Some [49;48;48;48;48;50;57]%N));
-         Recv 1000158250 (MHeartbeat (Some [49;48;48;48;49;48;56]%N))].
+         Recv 1000158250 (MHeartbeat (Some [49;48;48;48;49;48;57]%N))].
 
 Fixpoint answersb (hb : Z) (tr : list row) : bool :=
   match tr with
@@ -824,4 +824,27 @@ Proof.
   apply Forall_forall. intros e He.
   assert (F : forallb (fun e => 1000 <=? ev_time e) answering_evs = true) by (vm_compute; reflexivity).
   rewrite forallb_forall in F. specialize (F e He). lia.
+Qed.
+
+(* an answer within 2 hb - 1 s of the moment the probe was written meets the absolute deadline id + 2 hb s *)
+Lemma answer_deadline : forall hb t ta, ta <= t + (2 * hb - 1) * 1000 -> ta <= (t / 1000 + 2 * hb) * 1000.
+Proof. intros hb t ta H. pose proof (div1000 t). lia. Qed.
+
+Lemma constants :
+  (forall hb, thr thr_probe hb = (hb - 1) * 1000) /\ (forall hb, thr thr_dead hb = 2 * hb * 1000)
+  /\ (forall hb, thr thr_treq hb = 2 * hb * 1000) /\ tick_ms = 1000.
+Proof. repeat split; auto using thr_probe_eq, thr_dead_eq, thr_treq_eq. Qed.
+
+Example traffic_instance :
+  let evs := merge (ticks 1000000250 12) (app_msgs 1000004000 4000 3) in
+  fed ((5 - 1) * 1000) 1000000000 evs
+  /\ Forall (fun r => ~ wd_disconnect r) (trace (active0 5 1000000000) evs).
+Proof.
+  intro evs.
+  assert (F : fed ((5 - 1) * 1000) 1000000000 evs) by (vm_compute; repeat split; discriminate).
+  split; [exact F|].
+  apply (live_peer 5 evs (active0 5 1000000000) 1000000000); [lia | repeat split; reflexivity | | left; exact F].
+  apply Forall_forall. intros e He.
+  assert (G : forallb (fun e => 1000 <=? ev_time e) evs = true) by (vm_compute; reflexivity).
+  rewrite forallb_forall in G. specialize (G e He). lia.
 Qed.
